@@ -174,8 +174,12 @@ func runProbes(c *Case) {
 			killThreadProbe(i, p)
 			continue
 		}
+		if c.PauseBetweenProbes && i%4 == 0 {
+			time.Sleep(150 * time.Microsecond)
+			runtime.Gosched()
+		}
 		r1, e := doProbe(p)
-		emit(map[string]any{"ev": "post", "i": i, "r": r1, "errno": e})
+		emit(map[string]any{"ev": "post", "i": i, "r": r1, "errno": e, "tid": syscall.Gettid()})
 	}
 }
 
@@ -286,6 +290,20 @@ func enforce(c *Case) {
 		instMu.Unlock()
 	}
 	emit(map[string]any{"ev": "start", "pid": os.Getpid(), "tid": syscall.Gettid(), "goarch": goarch, "before": statusFields(syscall.Gettid())})
+	if c.PauseBetweenProbes {
+		// other threads exist and are idle, so a goroutine that is not locked has somewhere to go
+		var wg sync.WaitGroup
+		for k := 0; k < 6; k++ {
+			wg.Add(1)
+			go func() {
+				runtime.LockOSThread()
+				time.Sleep(2 * time.Millisecond)
+				runtime.UnlockOSThread()
+				wg.Done()
+			}()
+		}
+		wg.Wait()
+	}
 	if c.SiblingLoads > 0 {
 		runtime.GOMAXPROCS(1)
 		seccomp.VerifPoint = func(name string) {
